@@ -29,4 +29,14 @@ func init() {
 		"\terr = res.Write(brw)\n\tif err != nil {\n\t\tlog.Errorf(\"martian: got error while writing response back to client: %v\", err)",
 		"\terr = res.Write(brw)\n\tswitch {\n\tcase err != nil:\n\t\tlog.Errorf(\"martian: got error while writing response back to client: %v\", err)")
 	mut("C03", "half-close-skipped-on-error", "proxy.go", "\t\t\tlog.Errorf(\"martian: failed to copy CONNECT tunnel: %v\", err)\n\t\t}\n", "\t\t\tlog.Errorf(\"martian: failed to copy CONNECT tunnel: %v\", err)\n\t\t\tdonec <- true\n\t\t\treturn\n\t\t}\n", "C03.R5", "")
+	mut("C03", "panic-on-read-error", "proxy.go",
+		"\t\t// TODO: TCPConn.WriteClose() to avoid sending an RST to the client.\n\n\t\treturn nil, errClose",
+		"\t\t// TODO: TCPConn.WriteClose() to avoid sending an RST to the client.\n\tif req != nil {\n\t\tpanic(\"martian: request without error\")\n\t}\n\t\treturn nil, errClose", "C03.R6", "panic")
+	mut("C03", "fatal-in-warning", "proxyutil/proxyutil.go",
+		"func Warning(header http.Header, err error) {\n", "func Warning(header http.Header, err error) {\n\tif header == nil {\n\t\tpanic(\"nil header\")\n\t}\n", "C03.R6", "Warning")
+	mut("C03", "enum-gains-unhandled-constant", "h2/processor.go",
+		"\tServerToClient\n)", "\tServerToClient\n\t// Both is for diagnostics.\n\tBoth\n)", "C03.R6", "ForDirection")
+	twin("C03", "enum-switch-as-if-chain", "h2/processor.go",
+		"\tswitch dir {\n\tcase ClientToServer:\n\t\treturn s.cToS\n\tcase ServerToClient:\n\t\treturn s.sToC\n\t}\n",
+		"\tif dir == ClientToServer {\n\t\treturn s.cToS\n\t}\n\tif ServerToClient == dir {\n\t\treturn s.sToC\n\t}\n")
 }
